@@ -562,6 +562,16 @@ class Interp:
             except (Unsupported, PyExc):
                 bv = None
             bases.append(bv)
+        import typing as _typing
+
+        if any(b is _typing.NamedTuple for b in bases):
+            # class X(NamedTuple): field: T ...  ->  a real named tuple type (fields in declaration order)
+            import collections
+
+            fields = [st.target.id for st in node.body if isinstance(st, ast.AnnAssign) and isinstance(st.target, ast.Name)]
+            if any(isinstance(st, (ast.FunctionDef, ast.AsyncFunctionDef)) for st in node.body):
+                raise Unsupported(f"NamedTuple class {node.name} with methods")
+            return collections.namedtuple(node.name, fields)
         cfr = Frame(module, parent=frame, qual=qual)
         cfr.is_class = True
         dataclass = None
